@@ -648,6 +648,9 @@ fn space_silence(ctx: &Ctx) {
 }
 
 pub fn run(ctx: &Ctx) {
+    // the watchdog's clock also covers the harness's own oracle work (reference models, DOM enumeration);
+    // the limit is generous so that machine load cannot turn a slow case into a verdict
+    ctx.hang_limit_s.store(300, std::sync::atomic::Ordering::Relaxed);
     // ---- error locations over C01's failing inputs
     let t = c01::SIGMA.len() as u64;
     let per = c01::count_upto(t, 2);
